@@ -11,6 +11,7 @@
 -/
 import Upnp.Lemmas.C18History
 import Upnp.Lemmas.C18Etree
+import Upnp.Lemmas.C18JudgeSound
 namespace Upnp.C18
 open Upnp St
 
@@ -49,6 +50,15 @@ theorem no_deadlock (ops : List Op) (hr : (finalState {} ops).ready = [])
   intro k hk
   have := hq k hk
   simpa using this
+
+/-- non-vacuity of `no_deadlock`: its hypotheses (nothing runnable, nothing outstanding) are reached after a
+    cancellation of the marker's owner with a waiter pending, and then indeed all three lookups have finished -/
+example :
+    let s := finalState {} [.lookup 0, .lookup 0, .step, .step, .cancel 0, .step, .step, .complete 1 none, .step,
+                            .lookup 0, .step]
+    s.ready = [] ∧ s.outstandingCount = 0 ∧ s.ts.length = 3 ∧ s.ts.all (fun k => k.pc == .done) = true
+      ∧ s.mon.dls.length = 2 := by
+  decide
 
 /-- every scheduler snapshot of every trace passes the monitor's deadlock check -/
 theorem snapshots_ok (ops : List Op) :
@@ -219,6 +229,54 @@ example :
 theorem witness_F18a_ok :
     judge (run [.lookup 0, .lookup 0, .step, .step, .cancel 0, .step, .step, .complete 1 (some 7), .step,
                 .lookup 0, .step]) = true := by decide
+
+/-! ### what the judge's verdict MEANS (declarative statements that follow from `judge … = true`) -/
+
+/-- **Judge soundness, quiet case** (clauses 1–4a in first-order form, for model AND implementation traces): if the
+    monitor accepts a trace without cancellation and without uncache, then at most ONE request per location
+    reached the requester — however many lookups overlapped or came later, whether the download succeeded or
+    failed — and all lookups of one location that returned, returned the SAME value: the released outcome of
+    that single download. -/
+theorem judge_sound_quiet (items : List Item) (h : judge items = true) (hq : ∀ i ∈ items, i.isQuiet = true) :
+    ∃ m, feedAll {} items = some m
+      ∧ (∀ loc, reqCount loc items ≤ 1)
+      ∧ (∀ k1 ∈ m.tasks, ∀ k2 ∈ m.tasks, ∀ v1 v2, k1.loc = k2.loc → k1.status = .returned v1 →
+          k2.status = .returned v2 → v1 = v2)
+      ∧ (∀ k ∈ m.tasks, ∀ v, k.status = .returned v → ∃ d ∈ m.dls, d.loc = k.loc ∧ d.outcome = some v) :=
+  judge_single_download items h hq
+
+theorem run_quiet (ops : List Op) (hq : ∀ o ∈ ops, (Item.op o).isQuiet = true) :
+    ∀ i ∈ run ops, i.isQuiet = true := by
+  suffices H : ∀ s, ∀ i ∈ runFrom s ops, i.isQuiet = true from H _
+  induction ops with
+  | nil => intro s i hi; simp [runFrom] at hi
+  | cons op rest ih =>
+    intro s i hi
+    simp only [runFrom, List.cons_append, List.mem_cons, List.mem_append, List.mem_map] at hi
+    rcases hi with rfl | ⟨ev, _, rfl⟩ | rfl | hi
+    · exact hq op (by simp)
+    · rfl
+    · rfl
+    · exact ih (fun o ho => hq o (by simp [ho])) _ i hi
+
+/-- … and on the model, for EVERY operation sequence without cancel / uncache (any number of overlapping and later
+    lookups of any locations, any release order, any outcomes): one request per location, one shared value. -/
+theorem model_single_download (ops : List Op) (hq : ∀ o ∈ ops, (Item.op o).isQuiet = true) :
+    ∃ m, feedAll {} (run ops) = some m
+      ∧ (∀ loc, reqCount loc (run ops) ≤ 1)
+      ∧ (∀ k1 ∈ m.tasks, ∀ k2 ∈ m.tasks, ∀ v1 v2, k1.loc = k2.loc → k1.status = .returned v1 →
+          k2.status = .returned v2 → v1 = v2) := by
+  obtain ⟨m, h1, h2, h3, _⟩ := judge_sound_quiet (run ops) (c18_history ops) (run_quiet ops hq)
+  exact ⟨m, h1, h2, h3⟩
+
+/-- non-vacuity: three overlapping lookups and a later one of location 0, one of location 1, a failed download:
+    exactly one request per location in the trace, and the judge's hypothesis is satisfiable -/
+example :
+    let ops : List Op := [.lookup 0, .lookup 0, .lookup 1, .step, .step, .lookup 0, .step, .step, .complete 0 none,
+                          .step, .step, .step, .complete 1 (some 4), .step, .lookup 0, .step]
+    (∀ o ∈ ops, (Item.op o).isQuiet = true) ∧ reqCount 0 (run ops) = 1 ∧ reqCount 1 (run ops) = 1
+      ∧ Item.ev (.returned 4 none) ∈ run ops ∧ Item.ev (.returned 2 (some 4)) ∈ run ops := by
+  decide
 
 /-! ### the XML-tree → dictionary conversion (`utils.etree_to_dict`, `_description_xml_to_dict`) -/
 
